@@ -4,6 +4,7 @@ import (
 	"fmt"
 	"strings"
 	"time"
+	"verif/harness/internal/rt"
 
 	"pgregory.net/rapid"
 )
@@ -196,6 +197,7 @@ func RunInBubble(t *rapid.T, p Program) (res Result, bubbleFailure string) {
 			panic(r)
 		}
 	}()
+	rt.Describe(p.String())
 	rapid.SyncTest(t, func(t *rapid.T) {
 		res = Run(p)
 	})
